@@ -3,8 +3,14 @@
 //
 //	H <init> <op>;<op>;…  |  <rec0>;<rec1>;…
 //
+// and, for the zero-size element type (queue.Queue[struct{}], the only way to buffers longer than
+// 2^62 slots -- machine-int audit, known finding F11):
+//
+//	U <init> <op>;<op>;…  |  <rec0>;<rec1>;…      ops without element values: a u p l c k<i>
+//	rec: <ret>/<head>,<n>,<len(vs)>/<Len>,<IsEmpty>/<len(Slice)>/<Each calls>/<Each calls when stopped after Len/2+1>/<Peek ok flags>
+//
 // init: z (zero value), n (New()), s<k> (NewSize(k)).
-// op:   a<v> Add(v)   u<v> Push(v)   p Pop()   l PopLast()   c Clear()
+// op:   a<v> Add(v)   u<v> Push(v)   p Pop()   l PopLast()   c Clear()   k<i> Peek(i), any int
 //
 //	An Add/Push that regrew the buffer carries the capacity chosen by append as an ORACLE
 //	annotation: a<v>^<cap> (read through the verif hook after the call).  Annotations found in
@@ -24,6 +30,7 @@ package main
 
 import (
 	"fmt"
+	"math"
 	"strconv"
 	"strings"
 
@@ -39,6 +46,16 @@ type sess struct {
 	next int
 	dead bool
 	tags map[string]bool
+	// what the previous mutating operation did (for the sequence tags)
+	prevEmptiedByPopLast, prevEmptiedByPop bool
+	cleared                                bool // a Clear of a non-empty queue happened earlier
+}
+
+func gcd(a, b int) int {
+	for b != 0 {
+		a, b = b, a%b
+	}
+	return a
 }
 
 func ints(xs []int) string {
@@ -152,12 +169,15 @@ func (s *sess) do(code byte, v int) {
 			ret = strconv.Itoa(x) + ":" + tr.B(ok)
 		case 'c':
 			s.q.Clear()
+		case 'k':
+			x, ok := s.q.Peek(v)
+			ret = strconv.Itoa(x) + ":" + tr.B(ok)
 		default:
 			panic("bad op")
 		}
 	})
 	txt := string(code)
-	if code == 'a' || code == 'u' {
+	if code == 'a' || code == 'u' || code == 'k' {
 		txt += strconv.Itoa(v)
 	}
 	if res != "" {
@@ -173,13 +193,52 @@ func (s *sess) do(code byte, v int) {
 		s.tags["grow"] = true
 		if h0 > 0 {
 			s.tags["rotate-then-grow-"+map[byte]string{'a': "add", 'u': "push"}[code]] = true
+			s.tags["grow-while-wrapped"] = true // full with head > 0 means the ring is wrapped
+			if g := gcd(l0-h0, l0); g > 1 {
+				s.tags["rotate-multi-cycle"] = true // slice.Rotate chases more than one cycle
+				if g > 2 {
+					s.tags["rotate-3+-cycles"] = true
+				}
+			}
+		}
+		if s.cleared {
+			s.tags["regrow-after-clear"] = true
 		}
 		if l1 > l0+1 {
 			s.tags["grow-with-spare"] = true
 		}
 	}
 	// the states the property text names
+	if (code == 'a' || code == 'u') && s.cleared {
+		s.tags["clear-then-reuse"] = true
+	}
+	if code == 'u' && s.prevEmptiedByPopLast {
+		s.tags["poplast-to-empty-then-push"] = true
+	}
+	if code == 'a' && s.prevEmptiedByPop {
+		s.tags["pop-to-empty-then-add"] = true
+	}
+	if code == 'u' && s.prevEmptiedByPop {
+		s.tags["pop-to-empty-then-push"] = true
+	}
+	if code == 'a' && s.prevEmptiedByPopLast {
+		s.tags["poplast-to-empty-then-add"] = true
+	}
+	if code != 'k' {
+		s.prevEmptiedByPopLast = code == 'l' && n0 == 1
+		s.prevEmptiedByPop = code == 'p' && n0 == 1
+	}
 	switch code {
+	case 'k':
+		switch {
+		case v == math.MinInt:
+			s.tags["peek-minint"] = true
+		case v < -(1 << 62), v > 1<<62:
+			s.tags["peek-huge-offset"] = true
+		}
+		if n0 > 0 && v < 0 && v >= -n0 {
+			s.tags["peek-negative-in-range"] = true
+		}
 	case 'a':
 		if n0 < l0 && h0+n0 >= l0 {
 			s.tags["add-wraps"] = true
@@ -187,6 +246,9 @@ func (s *sess) do(code byte, v int) {
 	case 'u':
 		if n0 < l0 && h0 == 0 {
 			s.tags["push-wraps-head-below-0"] = true
+			if n0 > 0 {
+				s.tags["push-wraps-head-below-0-nonempty"] = true
+			}
 		}
 	case 'p':
 		if n0 > 1 && h0 == l0-1 {
@@ -214,23 +276,43 @@ func (s *sess) do(code byte, v int) {
 	case 'c':
 		if n0 > 0 {
 			s.tags["clear-nonempty"] = true
+			s.cleared = true
+			if h0+n0 > l0 {
+				s.tags["clear-while-wrapped"] = true
+			}
 		}
 	}
 	s.ops = append(s.ops, txt)
 	s.record(ret)
-	if h1, n1, l2 := s.state(); n1 == l2 && h1 > 0 {
+	if h1, n1, l2 := s.state(); n1 == l2 && h1 > 0 && (code == 'a' || code == 'u') {
 		s.tags["full-with-head-in-middle"] = true
+		s.tags["full-with-head-in-middle-by-"+map[byte]string{'a': "add", 'u': "push"}[code]] = true
 	}
 	if h1, n1, l2 := s.state(); n1 > 0 && h1+n1 > l2 {
 		s.tags["ring-wrapped"] = true
 	}
 }
 
-func (s *sess) add()     { s.do('a', s.next); s.next++ }
-func (s *sess) push()    { s.do('u', s.next); s.next++ }
-func (s *sess) pop()     { s.do('p', 0) }
-func (s *sess) popLast() { s.do('l', 0) }
-func (s *sess) clear()   { s.do('c', 0) }
+func (s *sess) add()       { s.do('a', s.next); s.next++ }
+func (s *sess) push()      { s.do('u', s.next); s.next++ }
+func (s *sess) pop()       { s.do('p', 0) }
+func (s *sess) popLast()   { s.do('l', 0) }
+func (s *sess) clear()     { s.do('c', 0) }
+func (s *sess) peek(k int) { s.do('k', k) }
+
+// extremePeeks asks for offsets at and around the ends of the int range (machine-int audit:
+// Peek does `n += q.n` for negative n) and just outside [-Len, Len).
+func (s *sess) extremePeeks(r *tr.Rand) {
+	if s.dead {
+		return
+	}
+	_, n, _ := s.state()
+	ks := []int{math.MinInt, math.MinInt + 1, math.MinInt + n, math.MinInt + n + 1, -math.MaxInt, math.MaxInt, math.MaxInt - n,
+		-n - 1, -n, -1, 0, n - 1, n, 1 << 62, -(1 << 62), 1<<63 - 1 - 2*n}
+	for i := 0; i < 4; i++ {
+		s.peek(tr.Pick(r, ks))
+	}
+}
 
 func (s *sess) input() string {
 	ops := "-"
@@ -272,11 +354,221 @@ func replay(in string) *sess {
 			v, _ = strconv.Atoi(o[1:])
 		}
 		s.do(o[0], v)
-		if v >= s.next {
+		if (o[0] == 'a' || o[0] == 'u') && v >= s.next {
 			s.next = v + 1
 		}
 	}
 	return s
+}
+
+// ---- queue.Queue[struct{}]: lengths and flags only (see the U line syntax above) ----
+
+type usess struct {
+	q    *queue.Queue[struct{}]
+	init string
+	ops  []string
+	recs []string
+	dead bool
+	tags map[string]bool
+}
+
+func newUSess(init string) *usess {
+	s := &usess{init: init, tags: map[string]bool{}}
+	res := tr.Catch(func() {
+		switch {
+		case init == "z":
+			var q queue.Queue[struct{}]
+			s.q = &q
+		case init == "n":
+			s.q = queue.New[struct{}]()
+		case strings.HasPrefix(init, "s"):
+			k, err := strconv.Atoi(init[1:])
+			if err != nil {
+				panic("bad init " + init)
+			}
+			s.q = queue.NewSize[struct{}](k)
+			if k > 1<<62 {
+				s.tags["u-capacity-above-2^62"] = true
+			} else if k >= 1<<40 {
+				s.tags["u-capacity-huge-within-bound"] = true
+			}
+		default:
+			panic("bad init " + init)
+		}
+	})
+	if res != "" {
+		s.recs = append(s.recs, res)
+		s.dead = true
+		return s
+	}
+	s.record("-")
+	return s
+}
+
+func (s *usess) observe(ret string) string {
+	q := s.q
+	h, n, l, _ := q.VerifState()
+	ln := q.Len()
+	var b strings.Builder
+	fmt.Fprintf(&b, "%s/%d,%d,%d/%d,%s/", ret, h, n, l, ln, tr.B(q.IsEmpty()))
+	_ = q.Front()
+	fmt.Fprintf(&b, "%d/", len(q.Slice()))
+	all := 0
+	q.Each(func(struct{}) bool { all++; return true })
+	some, m := 0, ln/2
+	q.Each(func(struct{}) bool { some++; return some <= m })
+	fmt.Fprintf(&b, "%d/%d/", all, some)
+	for k := -(ln + 2); k <= ln+1; k++ {
+		_, ok := q.Peek(k)
+		b.WriteString(tr.B(ok))
+	}
+	return b.String()
+}
+
+func (s *usess) record(ret string) {
+	var rec string
+	res := tr.Catch(func() { rec = s.observe(ret) })
+	if res != "" {
+		rec = res
+		s.dead = true
+	}
+	s.recs = append(s.recs, rec)
+}
+
+func (s *usess) do(code byte, v int) {
+	if s.dead {
+		return
+	}
+	h0, n0, l0, _ := s.q.VerifState()
+	ret := "-"
+	res := tr.Catch(func() {
+		switch code {
+		case 'a':
+			s.q.Add(struct{}{})
+		case 'u':
+			s.q.Push(struct{}{})
+		case 'p':
+			_, ok := s.q.Pop()
+			ret = tr.B(ok)
+		case 'l':
+			_, ok := s.q.PopLast()
+			ret = tr.B(ok)
+		case 'c':
+			s.q.Clear()
+		case 'k':
+			_, ok := s.q.Peek(v)
+			ret = tr.B(ok)
+		default:
+			panic("bad op")
+		}
+	})
+	txt := string(code)
+	if code == 'k' {
+		txt += strconv.Itoa(v)
+	}
+	if res != "" {
+		s.ops = append(s.ops, txt)
+		s.recs = append(s.recs, res)
+		s.dead = true
+		s.tags["u-panic"] = true
+		return
+	}
+	_, _, l1, _ := s.q.VerifState()
+	if (code == 'a' || code == 'u') && l1 != l0 {
+		txt += "^" + strconv.Itoa(l1)
+		s.tags["u-grow"] = true
+		if h0 > 0 {
+			s.tags["u-rotate-then-grow"] = true
+		}
+	}
+	if code == 'a' && n0 < l0 && h0+n0 >= l0 && h0+n0 > 0 {
+		s.tags["u-add-wraps"] = true
+	}
+	if code == 'u' && n0 < l0 && h0 == 0 {
+		s.tags["u-push-wraps-head-below-0"] = true
+	}
+	s.ops = append(s.ops, txt)
+	s.record(ret)
+}
+
+func (s *usess) emit(w *tr.W, tags ...string) {
+	for t := range s.tags {
+		tags = append(tags, t)
+	}
+	ops := "-"
+	if len(s.ops) > 0 {
+		ops = strings.Join(s.ops, ";")
+	}
+	w.Case("U "+s.init+" "+ops, strings.Join(s.recs, ";"), true, tags...)
+}
+
+func replayU(f []string) *usess {
+	s := newUSess(f[1])
+	if len(f) < 3 || f[2] == "-" {
+		return s
+	}
+	for _, o := range strings.Split(f[2], ";") {
+		if o == "" {
+			continue
+		}
+		if i := strings.IndexByte(o, '^'); i >= 0 {
+			o = o[:i]
+		}
+		v := 0
+		if len(o) > 1 {
+			v, _ = strconv.Atoi(o[1:])
+		}
+		s.do(o[0], v)
+	}
+	return s
+}
+
+// genU: histories on queue.Queue[struct{}].  Small capacities (append grows a zero-size slice by
+// exactly one slot, so the ring is full after every growth and rotates on every further one);
+// capacities at and just below the 2^62 bound of C07_history64; capacities above it, up to
+// math.MaxInt, where head+n can leave the int range (F11).
+func genU(o *tr.Opts, w *tr.W, r *tr.Rand) {
+	caps := []string{"z", "n", "s0", "s1", "s2", "s3", "s5", "s8"}
+	huge := []int{1 << 40, 1<<62 - 1, 1 << 62, 1<<62 + 1, 1<<63 - 1 - 1000, math.MaxInt - 7, math.MaxInt - 2, math.MaxInt - 1, math.MaxInt}
+	run := func(in string, nops int, tag string) {
+		s := newUSess(in)
+		for j := 0; j < nops && !s.dead; j++ {
+			_, n, _, _ := s.q.VerifState()
+			switch x := r.Intn(100); {
+			case x < 30:
+				s.do('a', 0)
+			case x < 55:
+				s.do('u', 0)
+			case x < 70:
+				s.do('p', 0)
+			case x < 85:
+				s.do('l', 0)
+			case x < 88:
+				s.do('c', 0)
+			default:
+				s.do('k', tr.Pick(r, []int{math.MinInt, math.MinInt + n, -n - 1, -n, -1, 0, n - 1, n, math.MaxInt, math.MaxInt - n}))
+			}
+		}
+		s.emit(w, tag)
+	}
+	for i := 0; i < o.Scale(300, 6000); i++ {
+		run(tr.Pick(r, caps), r.Range(3, 40), "u-small")
+	}
+	for _, k := range huge {
+		for i := 0; i < o.Scale(12, 200); i++ {
+			run("s"+strconv.Itoa(k), r.Range(2, 14), "u-huge")
+		}
+	}
+	// the F11 shape at every distance m below math.MaxInt: Push (head = len-1), then Adds until
+	// head+n passes 2^63 (m+2 Adds are fine, the next one is not)
+	for m := 0; m <= 6; m++ {
+		s := newUSess("s" + strconv.Itoa(math.MaxInt-m))
+		s.do('u', 0)
+		for i := 0; i < m+4; i++ {
+			s.do('a', 0)
+		}
+		s.emit(w, "u-f11-shape")
+	}
 }
 
 var inits = []string{"z", "n", "s0", "s1", "s2", "s3", "s4", "s5", "s6", "s7", "s8", "s9"}
@@ -322,7 +614,9 @@ func gen(o *tr.Opts, w *tr.W) {
 	for _, in := range inits {
 		newSess(in).emit(w, "init-only")
 	}
-	newSess("s-1").emit(w, "init-negative-size")
+	for _, in := range []string{"s-1", "s-2", "s-4611686018427387904", "s-9223372036854775807", "s-9223372036854775808"} {
+		newSess(in).emit(w, "init-negative-size")
+	}
 
 	// 1. every history over {Add, Push, Pop, PopLast, Clear} up to a length, from several capacities
 	maxLen := o.Scale(5, 7)
@@ -393,6 +687,9 @@ func gen(o *tr.Opts, w *tr.W) {
 								s.pop()
 							}
 							fillTo(s, r, fill)
+							if r.Chance(1, 3) {
+								s.extremePeeks(r)
+							}
 							// exactly full now; one or two growing operations
 							for g := 0; g <= r.Intn(2); g++ {
 								if grow == 0 {
@@ -410,6 +707,9 @@ func gen(o *tr.Opts, w *tr.W) {
 								s.clear()
 								s.add()
 								s.push()
+							}
+							if r.Chance(1, 4) {
+								s.extremePeeks(r)
 							}
 							drain(s, r, dr)
 							s.emit(w, "aimed-full-head-middle")
@@ -463,6 +763,142 @@ func gen(o *tr.Opts, w *tr.W) {
 		}
 	}
 
+	// 3b. every (len, head) pair of an exactly full ring, reached by Add and by Push, then regrown
+	//     from either end: slice.Rotate(vs, -head) with every gcd(len-head, len), i.e. one and
+	//     several cycles; a second regrowth follows while the head is again in the middle.
+	for size := 2; size <= o.Scale(12, 24); size++ {
+		for h := 1; h < size; h++ {
+			for how := 0; how < 2; how++ {
+				for grow := 0; grow < 2; grow++ {
+					s := newSess("s" + strconv.Itoa(size))
+					if how == 0 { // Add to full, Pop h, Add h: head == h
+						for i := 0; i < size; i++ {
+							s.add()
+						}
+						for i := 0; i < h; i++ {
+							s.pop()
+						}
+						for i := 0; i < h; i++ {
+							s.add()
+						}
+					} else { // Push size-h (head == h), Add h
+						for i := 0; i < size-h; i++ {
+							s.push()
+						}
+						for i := 0; i < h; i++ {
+							s.add()
+						}
+					}
+					if grow == 0 {
+						s.add()
+					} else {
+						s.push()
+					}
+					if r.Bool() {
+						s.extremePeeks(r)
+					}
+					// move the head again and refill, so that the next growth rotates once more
+					for i := 0; i < 1+r.Intn(3); i++ {
+						s.pop()
+					}
+					fillTo(s, r, 2)
+					if grow == 0 {
+						s.push()
+					} else {
+						s.add()
+					}
+					drain(s, r, r.Intn(3))
+					s.emit(w, "every-full-head-position")
+				}
+			}
+		}
+	}
+
+	// 3c. Clear, then reuse: fill (wrapped or not), Clear, then build up again from either end past
+	//     one or two regrowths (the buffer restarts from nil), observing after every step.
+	for _, in := range inits {
+		for pre := 0; pre < 3; pre++ {
+			for re := 0; re < 3; re++ {
+				for cnt := 1; cnt <= o.Scale(4, 9); cnt++ {
+					s := newSess(in)
+					for i := 0; i < 2+r.Intn(6); i++ {
+						if pre == 0 || pre == 2 && r.Bool() {
+							s.add()
+						} else {
+							s.push()
+						}
+					}
+					if r.Bool() {
+						s.pop()
+						s.add()
+					}
+					s.clear()
+					if r.Chance(1, 3) {
+						s.extremePeeks(r)
+						s.pop()
+						s.popLast()
+					}
+					for i := 0; i < cnt; i++ {
+						if re == 0 || re == 2 && r.Bool() {
+							s.add()
+						} else {
+							s.push()
+						}
+					}
+					s.pop()
+					fillTo(s, r, 2)
+					s.push()
+					if r.Bool() {
+						s.clear()
+						s.push()
+						s.add()
+					}
+					drain(s, r, r.Intn(3))
+					s.emit(w, "clear-then-reuse")
+				}
+			}
+		}
+	}
+
+	// 3d. PopLast (or Pop) down to empty -- head is reset to 0 -- then Push (head wraps below 0
+	//     again) or Add, from rings whose head was anywhere.
+	for k := 1; k <= 9; k++ {
+		for m := 1; m <= k; m++ {
+			for how := 0; how < 4; how++ {
+				s := newSess(tr.Pick(r, []string{"z", "n", "s" + strconv.Itoa(k)}))
+				for i := 0; i < m; i++ {
+					if r.Bool() {
+						s.push()
+					} else {
+						s.add()
+					}
+				}
+				for i := 0; i < m; i++ {
+					if how < 2 {
+						s.popLast()
+					} else {
+						s.pop()
+					}
+				}
+				if how%2 == 0 {
+					s.push()
+					s.add()
+				} else {
+					s.add()
+					s.push()
+				}
+				if r.Bool() {
+					s.extremePeeks(r)
+				}
+				s.popLast()
+				s.popLast()
+				s.push()
+				drain(s, r, r.Intn(3))
+				s.emit(w, "drain-to-empty-then-insert")
+			}
+		}
+	}
+
 	// 4. long random mixes with phases (grow / shrink / churn), Clear mid-way
 	nmix := o.Scale(1500, 30000)
 	for i := 0; i < nmix; i++ {
@@ -490,6 +926,8 @@ func gen(o *tr.Opts, w *tr.W) {
 			switch {
 			case r.Chance(1, 60):
 				s.clear()
+			case r.Chance(1, 40):
+				s.extremePeeks(r)
 			case x < pIns:
 				if r.Chance(3, 5) {
 					s.add()
@@ -506,13 +944,18 @@ func gen(o *tr.Opts, w *tr.W) {
 		}
 		s.emit(w, "random-mix")
 	}
+
+	// 5. the zero-size element type
+	genU(o, w, r)
 }
 
-const rule = "Histories of Add/Push/Pop/PopLast/Clear on queue.Queue[int] from the zero value, New() and NewSize(0..9, some 10..40): " +
+const rule = "Histories of Add/Push/Pop/PopLast/Clear/Peek(any int) on queue.Queue[int] from the zero value, New() and NewSize(0..9, some 10..40; negative sizes down to math.MinInt): " +
 	"every history up to length 5 (quick) / 7 (thorough) from capacities 0..4; aimed histories that move the head into the middle, " +
 	"fill the ring exactly (capacity read through the verif hook) from either end or both, regrow from either end, drain from either end; " +
 	"Push on a fresh preallocated ring (head wraps below 0), PopLast with the newest element at every index around the boundary; " +
-	"long random phase mixes with Clear mid-way. After the construction and after EVERY operation the record holds the return value, head/n/len(vs) " +
+	"every (len, head) position of an exactly full ring up to len 12 (quick) / 24 (thorough) reached by Add and by Push and regrown from either end (Rotate with one and several cycles); " +
+	"Clear then reuse past the next regrowths; PopLast/Pop down to empty then Push/Add; explicit Peek ops at the ends of the int range (math.MinInt, MinInt+Len, MaxInt, ...); " +
+	"long random phase mixes with Clear mid-way; U lines: the same operations on queue.Queue[struct{}] (lengths and flags only) from small capacities and from NewSize(2^40 .. math.MaxInt), around the 2^62 bound of C07_history64 and above it (known finding F11). After the construction and after EVERY operation the record holds the return value, head/n/len(vs) " +
 	"(hook), Len, IsEmpty, Front, Slice, Each (complete and stopped half-way) and Peek(k) for every k from -(Len+2) to Len+1. " +
 	"A case is non-trivial when it reached at least one named state (tags: ring wrapped, full with head in the middle, rotate-then-grow by Add/Push, " +
 	"push wraps head below 0, PopLast/Pop/Add wrap, emptied with head reset, Clear of a non-empty queue, Pop on empty); distinct = distinct input lines."
@@ -522,6 +965,10 @@ func main() {
 	w := tr.NewW(o.Out)
 	if o.Replay != "" {
 		for _, in := range tr.ReplayInputs(o.Replay) {
+			if f := strings.Fields(in); len(f) >= 2 && f[0] == "U" {
+				replayU(f).emit(w, "replayed")
+				continue
+			}
 			replay(in).emit(w, "replayed")
 		}
 	} else {
